@@ -306,7 +306,8 @@ pub fn run_path(cfg: &Cfg, path: &PathRec, rec: &mut Recorder) -> PathResult {
                 if nx.t != st.t {
                     if let (Some(t2), Some(Cmd::Go(None))) = (w.task_ix(&nx.t), command_of(nx)) {
                         if let TState::AtPoint(site) = w.ts[t2] {
-                            if LOCK_SITES.contains(&site) {
+                            // (not retain(): what it finds in the queue is recorded right before it locks)
+                            if LOCK_SITES.contains(&site) && site != "m.retain.lock" {
                                 w.preissue(t2);
                                 ahead = Some(t2);
                             }
